@@ -33,6 +33,8 @@ var regSets = [][]c09.Reg{
 	{regA("A"), regB("A.B")},
 	{regA("A"), regB("a")},
 	{regA("A.Foo"), regB("A")}, // "A.Foo" + "." + "Bar" vs "A" + "." + "FooBar"-like collisions
+	{regA("A"), regB("AB")},    // ("A","BFoo") vs ("AB","Foo"): equal when concatenated without the separator
+	{regB("AB"), regA("A"), regA("")},
 }
 
 // expected implements the property's reading of dispatch directly: formatted name ↦ tag (latest wins),
@@ -65,8 +67,8 @@ func candidates(h c09.HandlerDesc) []string {
 	set := map[string]bool{"": true, ".": true, "Foo": true, "foo": true, "A": true, "A.": true, ".Foo": true, "A.foo ": true, "A.Foo.Bar": true, "xrpc.x": true}
 	for _, f := range formatters {
 		ff := c09.Formatter(f)
-		for _, ns := range []string{"A", "B", "", "X", "A.B", "a", "A.Foo"} {
-			for _, m := range []string{"Foo", "Bar", "Baz", "FooBar", "Three"} {
+		for _, ns := range []string{"A", "B", "", "X", "A.B", "a", "A.Foo", "AB"} {
+			for _, m := range []string{"Foo", "Bar", "Baz", "FooBar", "Three", "BFoo", "ABFoo"} {
 				set[ff(ns, m)] = true
 			}
 		}
@@ -111,7 +113,7 @@ func aliasTables(h c09.HandlerDesc) [][][2]string {
 		nil,
 		{{"x", first}, {"gone", "No.Such"}},
 		{{first, second}, {"y", "x"}, {"x", second}}, // alias spelled like a direct name; two-hop chain y→x→second
-		{{"x", second}, {"x", first}},               // alias overwritten: latest wins
+		{{"x", second}, {"x", first}},                // alias overwritten: latest wins
 	}
 }
 
@@ -166,7 +168,48 @@ func Run(d *fw.Driver, res *fw.Result, seed int64, thorough bool, corpus []json.
 			}
 		}
 	}
+	if err := aliasFollowsLatest(res); err != nil {
+		return err
+	}
 	res.Exhaustive = true
+	return nil
+}
+
+// aliasFollowsLatest: Register(ns, first); AliasMethod(alias → ns.Foo); Register(ns, second).  The alias is an
+// entry of the alias table, resolved through the method table at request time: both the direct name and
+// the alias must run the handler registered last.
+func aliasFollowsLatest(res *fw.Result) error {
+	for _, order := range []string{"reg-alias-reg", "alias-reg-reg", "reg-reg-alias"} {
+		l := &api.Log{}
+		s := jsonrpc.NewServer()
+		first, second := &api.A{L: l}, &api.B{L: l}
+		steps := map[string][]func(){
+			"reg-alias-reg": {func() { s.Register("N", first) }, func() { s.AliasMethod("al", "N.Foo") }, func() { s.Register("N", second) }},
+			"alias-reg-reg": {func() { s.AliasMethod("al", "N.Foo") }, func() { s.Register("N", first) }, func() { s.Register("N", second) }},
+			"reg-reg-alias": {func() { s.Register("N", first) }, func() { s.Register("N", second) }, func() { s.AliasMethod("al", "N.Foo") }},
+		}[order]
+		for _, st := range steps {
+			st()
+		}
+		for _, name := range []string{"N.Foo", "al"} {
+			l.Take()
+			rec := httptest.NewRecorder()
+			req := httptest.NewRequest("POST", "/", strings.NewReader(`{"jsonrpc":"2.0","id":1,"method":"`+name+`","params":[7]}`))
+			s.ServeHTTP(rec, req)
+			ents := l.Take()
+			got := ""
+			if len(ents) == 1 {
+				got = ents[0].Tag
+			}
+			if got != "B.Foo" {
+				res.Add(fw.Finding{Kind: "monitor", Signature: "alias after re-registration order=" + order + " name=" + name,
+					Detail: fmt.Sprintf("after %s a request for %q ran %q; the handler registered last under N.Foo is B.Foo (reply %s)", order, name, got, strings.TrimSpace(rec.Body.String())),
+					Case:   map[string]interface{}{"scenario": "alias-follows-latest", "order": order, "name": name}})
+			}
+			res.Count("alias-follows-latest")
+			res.Eval(true, []interface{}{"alias-follows-latest", order, name})
+		}
+	}
 	return nil
 }
 
